@@ -1,6 +1,7 @@
 #!/bin/bash
 # mutants.sh [pattern]: for every mutants/<Cxx>-*.patch (and seeded/<id>/patch.diff) apply it to a scratch copy,
 # run the property's quick check against it and report whether it was detected.
+# A file mutants/<name>.tier names another tier (thorough) for a mutant the quick alphabet cannot reach.
 # Patches whose name contains "revert-fix" are applied in reverse (they re-introduce a repaired defect).
 cd "$(dirname "$0")/.."
 pat=${1:-}
@@ -11,9 +12,10 @@ for f in mutants/*${pat}*.patch; do
     check_props="$prop"
     [ -f "${f%.patch}.props" ] && check_props=$(cat "${f%.patch}.props")
     for p in $check_props; do
-        out=$(MUTANT_REVERSE=$rev bin/with-mutant "$f" bin/check "$p" --tier quick 2>/dev/null); rc=$?
+        tier=quick; [ -f "${f%.patch}.tier" ] && tier=$(cat "${f%.patch}.tier")
+        out=$(MUTANT_REVERSE=$rev bin/with-mutant "$f" bin/check "$p" --tier $tier 2>/dev/null); rc=$?
         nv=$(echo "$out" | grep -c '^VIOLATION')
         [ $rc = 3 ] && { echo "$(basename "$f") :: $p -> PATCH-DOES-NOT-APPLY"; continue; }
-        echo "$(basename "$f") :: $p -> exit=$rc violations=$nv"
+        echo "$(basename "$f") :: $p ($tier) -> exit=$rc violations=$nv"
     done
 done
